@@ -17,12 +17,13 @@
   * `presence` / `sources`: a step changes the session of at most the one subject it is about;
     rejected logins, reads, clock advances, responses that answer no pending request and logout
     requests naming somebody else change nothing;
-  * `notEnded` / `notEndedSoap` / `presence`: a logout step ends the subject's session exactly when the
+  * `notEnded` / `presence`: a logout step ends the subject's session exactly when the
     last involved identity provider has answered or the deadline has passed;
   * `pendingRemoved` / `pendingAdded`: a pending request disappears only by being answered; new ones
     appear only while a logout operation is being processed, for providers still involved in it;
-  * `request`: every LogoutRequest sent names the subject of the operation, goes to a provider still
-    involved, and carries the session index of a live login of that subject at that provider;
+  * `request`: every LogoutRequest sent names the subject of the operation, goes to
+    a provider still involved (one that has not answered yet), and carries the session index of a live
+    login of that subject at that provider;
   * `status`: an IdP-initiated request is answered `Success` only if it named the current subject and
     that subject's session is gone.
 
@@ -60,17 +61,20 @@ deriving Repr
 inductive Fail where
   | leak | expired | loggedIn
   | presence | sources
-  | notEnded | notEndedSoap
+  | notEnded
   | pendingRemoved | pendingAdded
   | request | status
+  | afterSoap (f : Fail)   -- the clause was violated while processing a logout operation in which an
+                           -- answer received over SOAP has been counted
 deriving DecidableEq, Repr
 
 def Fail.name : Fail → String
   | .leak => "leak" | .expired => "expired" | .loggedIn => "logged-in-without-live-login"
   | .presence => "session-changed" | .sources => "sources-changed"
-  | .notEnded => "session-not-ended" | .notEndedSoap => "session-not-ended-after-soap-answer"
-  | .pendingRemoved => "pending-removed-without-answer" | .pendingAdded => "pending-added"
-  | .request => "request-does-not-name-subject" | .status => "status"
+  | .notEnded => "session-not-ended"
+  | .pendingRemoved => "pending-removed-without-answer" | .pendingAdded => "request-not-allowed-pending"
+  | .request => "request-not-allowed-or-not-naming-subject" | .status => "status"
+  | .afterSoap f => f.name ++ "-after-soap-answer"
 
 /-- Past its not-on-or-after time (0 = no expiry known). -/
 def expired (now nooa : Int) : Bool := decide (nooa ≠ 0) && decide (nooa < now)
@@ -177,7 +181,8 @@ def planOf (cs : Bool) (cfg : Cfg) (g : Ghost) (before : Obs) (op : Op) (out : O
                 ops := Dict.set o { gop with remaining := rem'', soap := gop.soap || !ans.isEmpty } g.ops }
           else
             -- an answer from a provider that is not (or no longer) awaited: the text is silent
-            { soi := some gop.subj, expect := .free, opId := some o, consumed := some rid, ops := g.ops }
+            { soi := some gop.subj, expect := .free, soapFlag := gop.soap, opId := some o, consumed := some rid,
+              ops := g.ops }
       else { ops := g.ops }
   | .slo named current _ _ =>
     if named = current then { soi := some current, expect := .free, ops := g.ops } else { ops := g.ops }
@@ -249,15 +254,16 @@ def flag (ok : Bool) (f : Fail) : List Fail := if ok then [] else [f]
 def specStep (cs : Bool) (cfg : Cfg) (g : Ghost) (before : Obs) (e : Ev) : List Fail × Ghost :=
   let p := planOf cs cfg g before e.op e.out
   let g' := ghostNext g p e.op before e.obs
+  let mark : Fail → Fail := fun f => if p.soapFlag then .afterSoap f else f
   let fails :=
     (if readOk g (readCheck e.op) e.op e.out then []
      else if readOk g false e.op e.out then [Fail.expired] else [Fail.leak]) ++
-    flag (endsOk p e.obs) (if p.soapFlag then .notEndedSoap else .notEnded) ++
+    flag (endsOk p e.obs) (mark .notEnded) ++
     flag (presenceAllOk p before e.obs) .presence ++
     flag (sourcesOk p e.op before e.obs) .sources ++
     flag (pendingRemovedOk p before e.obs) .pendingRemoved ++
-    flag (pendingAddedOk g p before e.obs) .pendingAdded ++
-    flag (requestOk cfg g p e.out) .request ++
+    flag (pendingAddedOk g p before e.obs) (mark .pendingAdded) ++
+    flag (requestOk cfg g p e.out) (mark .request) ++
     flag (statusOk e.op e.out e.obs) .status ++
     flag (loggedInOk g' e.obs) .loggedIn
   (fails, g')
